@@ -28,7 +28,7 @@ func checkC19(p *core.Prog, r *core.Report) {
 
 type c19Conv struct {
 	count, rcount string
-	timeoutHas    int64 // bits that must be or-ed into timeout (0 = none)
+	timeoutHas    int64  // bits that must be or-ed into timeout (0 = none)
 	mode          string // "", "set", "clear" (Event)
 }
 
@@ -41,27 +41,27 @@ func c19Table(p *core.Prog, r *core.Report) map[string][]c19Conv {
 	ev := []c19Conv{{count: "0", rcount: "0", mode: "set"}, {count: "1", rcount: "0", mode: "clear"}}
 	evw := []c19Conv{{count: "0", rcount: "0", mode: "set"}, {count: "1", rcount: "0", mode: "clear", timeoutHas: waitUnlock}}
 	return map[string][]c19Conv{
-		"client.NewLock":                      excl,
-		"client.NewRLock":                     {{count: "0", rcount: "255"}},
-		"client.(*RWLock).RLock":              {{count: "65535", rcount: "0"}},
-		"client.(*RWLock).RLockWithData":      {{count: "65535", rcount: "0"}},
-		"client.(*RWLock).Lock":               excl,
-		"client.(*RWLock).LockWithData":       excl,
-		"client.(*Semaphore).Acquire":         sem,
-		"client.(*Semaphore).Release":         sem,
-		"client.(*Semaphore).ReleaseN":        sem,
-		"client.(*Semaphore).ReleaseAll":      sem,
-		"client.(*Semaphore).Count":           sem,
-		"client.(*MaxConcurrentFlow).Acquire": flow,
-		"client.(*MaxConcurrentFlow).Release": flow,
-		"client.(*PriorityLock).Lock":         {{count: "self.count", rcount: "self.priority", timeoutHas: prio}},
-		"client.(*PriorityLock).LockWithData": {{count: "self.count", rcount: "self.priority", timeoutHas: prio}},
-		"client.(*Event).Clear":               ev,
-		"client.(*Event).ClearWithUnsetData":  ev,
-		"client.(*Event).Set":                 ev,
-		"client.(*Event).SetWithData":         ev,
-		"client.(*Event).IsSet":               evw,
-		"client.(*Event).Wait":                evw,
+		"client.NewLock":                           excl,
+		"client.NewRLock":                          {{count: "0", rcount: "255"}},
+		"client.(*RWLock).RLock":                   {{count: "65535", rcount: "0"}},
+		"client.(*RWLock).RLockWithData":           {{count: "65535", rcount: "0"}},
+		"client.(*RWLock).Lock":                    excl,
+		"client.(*RWLock).LockWithData":            excl,
+		"client.(*Semaphore).Acquire":              sem,
+		"client.(*Semaphore).Release":              sem,
+		"client.(*Semaphore).ReleaseN":             sem,
+		"client.(*Semaphore).ReleaseAll":           sem,
+		"client.(*Semaphore).Count":                sem,
+		"client.(*MaxConcurrentFlow).Acquire":      flow,
+		"client.(*MaxConcurrentFlow).Release":      flow,
+		"client.(*PriorityLock).Lock":              {{count: "self.count", rcount: "self.priority", timeoutHas: prio}},
+		"client.(*PriorityLock).LockWithData":      {{count: "self.count", rcount: "self.priority", timeoutHas: prio}},
+		"client.(*Event).Clear":                    ev,
+		"client.(*Event).ClearWithUnsetData":       ev,
+		"client.(*Event).Set":                      ev,
+		"client.(*Event).SetWithData":              ev,
+		"client.(*Event).IsSet":                    evw,
+		"client.(*Event).Wait":                     evw,
 		"client.(*Event).WaitAndTimeoutRetryClear": {{count: "0", rcount: "0", mode: "set"}, {count: "1", rcount: "0", mode: "clear"}},
 	}
 }
@@ -632,11 +632,24 @@ func c19R5(p *core.Prog, r *core.Report) {
 	if fn := mustFunc(p, r, "client.(*Client).ExecuteCommand"); fn != nil {
 		name := core.FuncName(fn)
 		cmd := fn.Params[1].Name()
-		ex := core.NewExplorer(p, core.Hooks{
-			Instr: func(x *core.X) {
-				if !x.Top() {
-					return
+		touchesRequests := func(c *ssa.Function) bool {
+			if !core.InModule(c) || c.Blocks == nil || recvName(c) != "Client" {
+				return false
+			}
+			for _, b := range c.Blocks {
+				for _, ins := range b.Instrs {
+					if fa, ok := ins.(*ssa.FieldAddr); ok {
+						if k := core.FieldKeyOf(fa.X.Type(), fa.Field); k.Field == "requests" {
+							return true
+						}
+					}
 				}
+			}
+			return false
+		}
+		ex := core.NewExplorer(p, core.Hooks{
+			Inline: func(x *core.X, c *ssa.Function) bool { return touchesRequests(c) },
+			Instr: func(x *core.X) {
 				_, _, _ = trackLocks(x)
 				switch t := x.Ins.(type) {
 				case *ssa.MapUpdate:
@@ -681,7 +694,7 @@ func c19R5(p *core.Prog, r *core.Report) {
 			},
 			Track: func(x *core.X, a core.Atom) bool { return strings.Contains(a.String(), ".requests[") },
 			Branch: func(x *core.X, a core.Atom) {
-				if x.Top() && x.Get("reg") == "1" && strings.Contains(a.L, ".requests[") && a.Op == "==" && a.R == "false" {
+				if x.Get("reg") == "1" && strings.Contains(a.L, ".requests[") && a.Op == "==" && a.R == "false" {
 					x.Set("gone", "1")
 				}
 			},
@@ -718,6 +731,7 @@ func c19R5(p *core.Prog, r *core.Report) {
 		name := core.FuncName(fn)
 		cmd := fn.Params[1].Name()
 		ex := core.NewExplorer(p, core.Hooks{
+			Track: func(x *core.X, a core.Atom) bool { return strings.Contains(a.String(), ".requests[") },
 			Instr: func(x *core.X) {
 				if !x.Top() {
 					return
